@@ -178,7 +178,7 @@ def generate(repo):
 # Every unsigned node is reduced modulo 2^width in place (literal modulus, so `omega` needs no unfolding);
 # comparisons and && || ! are emitted as Props (`a > b` as `b < a`, which `split`/`simp` leave alone).
 # Calls on `this`: zero-argument getters are inlined; calls to other translated member functions are
-# composed (`match <Class>_<Callee> … with | none => none | some … => …`).
+# composed (`(<Class>_<Callee> …).bind fun results => …`).
 # The signature (inputs, number of integer arguments, results) is fixed by the table, not by the source, so a
 # bridging lemma keeps type-checking whatever the body does; a body that reads or writes anything outside its
 # declared interface, or uses a node kind outside the fragment, falls back.
@@ -432,9 +432,9 @@ class TrM(Tr):
         for name, arity in callee['effects']:
             pats += self.effect_vars(name, arity)
             self.shapes.setdefault(name, [f'as in {m}'])
-        pat = '(' + ', '.join(pats) + ')' if pats else '()'
-        return (f'match {self.cls}_{callee["lean"]} {" ".join(actual)} with\n{pad}| none => none\n{pad}| some {pat} =>\n{pad}  '
-                + self.stmts(rest, indent + 1))
+        pat = '(' + ', '.join(pats) + ')' if len(pats) > 1 else (pats[0] if pats else '_')
+        return (f'({self.cls}_{callee["lean"]} {" ".join(actual)}).bind fun {pat} =>\n{pad}'
+                + self.stmts(rest, indent))
     def terminates(self, s):
         if s.get('kind') != 'CompoundStmt': s = strip(s)
         k = s.get('kind')
